@@ -205,8 +205,9 @@ def run(pid, tier, replay):
         total += objs
         chk.add("handler_runs_observed", sum(len(o["handlers"]) for o in objs))
         chk.add("replies_observed", sum(len(o["replies"]) for o in objs))
+    nmut = mutating_handlers(chk)
     chk.cov["exhaustive"] = True
-    chk.cov["evaluations"] = len(total)
+    chk.cov["evaluations"] = len(total) + nmut
     chk.cov["distinct_nontrivial"] = core.distinct_count(
         [o for o in total if nontrivial_call(o)],
         lambda o: json.dumps([o["sent"], o["case"]["fail"]], sort_keys=True))
@@ -232,9 +233,31 @@ def run(pid, tier, replay):
     return chk.finish()
 
 
+def mutating_handlers(chk):
+    """'Replies exactly once' when the handlers are not pure: handlers that suspend, emit signals and register / remove
+    objects through the object server, on interfaces with task spawning enabled and disabled, alone and with property
+    accesses in flight (spec/Dispatch.tla, configurations of Gen_Dispatch class c30, replayed under 2 schedules each and
+    bound to the specification by DispatchTrace; the monitor's `answered` = every written call got exactly one
+    successful reply).  An unanswered call is a C26 violation as much as a C30 one."""
+    from props import obj_dispatch as od
+    obj = core.build("obj")
+    part = chk.path("mut_cfgs.ndjson")
+    g, n = core.tlc_generate("gen/Gen_Dispatch.tla", "gen/Gen_Dispatch_c30_quick.cfg", part, timeout=3000, workers=2)
+    chk.add_tlc(g)
+    obs = chk.path("mut_obs.ndjson")
+    core.run_bin(obj, ["disp-replay", part, 2, chk.seed, obs])
+    scen, ok, drift = od.decide(chk, "C30", obs, shards=2, workers=3)
+    chk.add("mutating_handler_traces", len(scen))
+    chk.add("traces_validated_against_impl", ok)
+    return sum(len(x["ev"]) for x in scen.values())
+
+
 def do_replay(chk, path):
     with open(path) as f:
         rp = json.load(f)["replay"]
+    if "calls" in rp and "spawn" in rp:
+        from props import obj_dispatch as od
+        return od.do_replay(chk, "C30", core.build("obj"), path)
     prog = make_program(chk, 0, niface=rp["niface"], seed=rp["shape_seed"], ntree=1)
     cases = chk.path("replay_cases.ndjson")
     with open(cases, "w") as f:
